@@ -144,7 +144,7 @@ fn exists<T>(r: Result<T, TableError>) -> Option<T> {
 }
 
 /// raw dump; `unknown_ids` gives first-appearance names to identity values the op did not write
-fn dump(db: &Database, unknown_ids: &mut Vec<Vec<u8>>) -> String {
+fn dump(db: &Database, unknown_ids: &mut Vec<Vec<u8>>, seeded: [bool; 3]) -> String {
     let tx = db.begin_read().unwrap();
     let ver = match exists(tx.open_table(SCHEMA_VERSION_TABLE)) {
         Some(t) => t.get(()).unwrap().map(|g| g.value()),
@@ -184,18 +184,35 @@ fn dump(db: &Database, unknown_ids: &mut Vec<Vec<u8>>) -> String {
             if parts.is_empty() { "_".into() } else { parts.join("/") }
         }
     };
-    let content_ok = |present: bool, intact: bool| if !present { '0' } else if intact { '1' } else { 'X' };
+    // content tables: '0' = table missing, '1' = present with EXACTLY the content the op line gave it
+    // (the seeded row if the line's bit was 1, empty if the table was created by the open),
+    // 'X' = present with any other content (row overwritten, removed or added)
     let t0 = match exists(tx.open_table(HEIGHTS_TABLE)) {
         None => '0',
-        Some(t) => content_ok(true, t.iter().unwrap().count() <= 1),
+        Some(t) => {
+            let rows: Vec<(Vec<u8>, u64)> =
+                t.iter().unwrap().map(|e| e.unwrap()).map(|(k, v)| (k.value().to_vec(), v.value())).collect();
+            let want: Vec<(Vec<u8>, u64)> = if seeded[0] { vec![(b"some-hash".to_vec(), 77)] } else { vec![] };
+            if rows == want { '1' } else { 'X' }
+        }
     };
     let t1 = match exists(tx.open_table(HEADERS_TABLE)) {
         None => '0',
-        Some(t) => content_ok(true, t.iter().unwrap().count() <= 1),
+        Some(t) => {
+            let rows: Vec<(u64, Vec<u8>)> =
+                t.iter().unwrap().map(|e| e.unwrap()).map(|(k, v)| (k.value(), v.value().to_vec())).collect();
+            let want: Vec<(u64, Vec<u8>)> = if seeded[1] { vec![(77, b"not-a-header".to_vec())] } else { vec![] };
+            if rows == want { '1' } else { 'X' }
+        }
     };
     let t2 = match exists(tx.open_table(SAMPLING_METADATA_TABLE)) {
         None => '0',
-        Some(t) => content_ok(true, t.iter().unwrap().count() <= 1),
+        Some(t) => {
+            let rows: Vec<(u64, Vec<u8>)> =
+                t.iter().unwrap().map(|e| e.unwrap()).map(|(k, v)| (k.value(), v.value().to_vec())).collect();
+            let want: Vec<(u64, Vec<u8>)> = if seeded[2] { vec![(77, b"meta".to_vec())] } else { vec![] };
+            if rows == want { '1' } else { 'X' }
+        }
     };
     let id = match exists(tx.open_table(LIBP2P_IDENTITY_TABLE)) {
         None => "absent".to_string(),
@@ -224,13 +241,63 @@ fn dump(db: &Database, unknown_ids: &mut Vec<Vec<u8>>) -> String {
     format!("ver={ver} hr={hr} rt={rt} tabs={t0}{t1}{t2} id={id}")
 }
 
+/// FULL raw content of the database: the sorted list of table names and, for every table this
+/// harness can type, every key/value pair byte for byte.  Used to observe "refused WITHOUT
+/// MODIFICATION" on the implementation side (not only through the abstract dump).
+fn raw_snapshot(db: &Database) -> Vec<String> {
+    use redb::TableHandle;
+    let tx = db.begin_read().unwrap();
+    let mut out: Vec<String> = vec![];
+    let mut names: Vec<String> = tx.list_tables().unwrap().map(|h| h.name().to_string()).collect();
+    names.sort();
+    out.push(format!("tables={}", names.join(",")));
+    if let Some(t) = exists(tx.open_table(SCHEMA_VERSION_TABLE)) {
+        out.push(format!("schema:{:?}", t.get(()).unwrap().map(|g| g.value())));
+    }
+    if let Some(t) = exists(tx.open_table(V1_HEIGHT_RANGES)) {
+        for e in t.iter().unwrap() {
+            let (k, v) = e.unwrap();
+            out.push(format!("hr:{}={:?}", k.value(), v.value()));
+        }
+    }
+    if let Some(t) = exists(tx.open_table(RANGES_TABLE)) {
+        for e in t.iter().unwrap() {
+            let (k, v) = e.unwrap();
+            out.push(format!("rt:{}={:?}", k.value(), v.value()));
+        }
+    }
+    if let Some(t) = exists(tx.open_table(HEIGHTS_TABLE)) {
+        for e in t.iter().unwrap() {
+            let (k, v) = e.unwrap();
+            out.push(format!("heights:{}={}", hex::encode(k.value()), v.value()));
+        }
+    }
+    if let Some(t) = exists(tx.open_table(HEADERS_TABLE)) {
+        for e in t.iter().unwrap() {
+            let (k, v) = e.unwrap();
+            out.push(format!("headers:{}={}", k.value(), hex::encode(v.value())));
+        }
+    }
+    if let Some(t) = exists(tx.open_table(SAMPLING_METADATA_TABLE)) {
+        for e in t.iter().unwrap() {
+            let (k, v) = e.unwrap();
+            out.push(format!("meta:{}={}", k.value(), hex::encode(v.value())));
+        }
+    }
+    if let Some(t) = exists(tx.open_table(LIBP2P_IDENTITY_TABLE)) {
+        out.push(format!("identity:{:?}", t.get(()).unwrap().map(|g| hex::encode(g.value()))));
+    }
+    out
+}
+
 struct C23 {
     rt: tokio::runtime::Runtime,
 }
 
 impl C23 {
     /// one `RedbStore::new` + reports + raw dump
-    fn open_once(&self, db: &Arc<Database>, unknown_ids: &mut Vec<Vec<u8>>) -> String {
+    fn open_once(&self, db: &Arc<Database>, unknown_ids: &mut Vec<Vec<u8>>, seeded: [bool; 3]) -> String {
+        let before = raw_snapshot(db);
         let res = self.rt.block_on(async {
             match RedbStore::new(db.clone()).await {
                 Ok(store) => {
@@ -252,7 +319,8 @@ impl C23 {
                 Err(e) => Err(e),
             }
         });
-        let d = dump(db, unknown_ids);
+        let d = dump(db, unknown_ids, seeded);
+        let raw = if raw_snapshot(db) == before { "same" } else { "changed" };
         match res {
             Ok((st, sa, pr)) => format!("ok {d} stored={st} sampled={sa} pruned={pr}"),
             Err(e) => {
@@ -270,7 +338,8 @@ impl C23 {
                     }
                     other => format!("NotOpenFailed({})", other.to_string().replace(' ', "_")),
                 };
-                format!("err {kind} {d}")
+                // a refused open must leave EVERY table byte for byte as it was
+                format!("err {kind} {d} raw={raw}")
             }
         }
     }
@@ -488,11 +557,11 @@ impl Prop for C23 {
                 let Some(spec) = parse_spec(line) else { return "bad-op".into() };
                 let db = build(&spec);
                 let mut unknown = vec![];
-                let first = self.open_once(&db, &mut unknown);
+                let first = self.open_once(&db, &mut unknown, spec.tabs);
                 if v == "open" {
                     first
                 } else {
-                    let second = self.open_once(&db, &mut unknown);
+                    let second = self.open_once(&db, &mut unknown, spec.tabs);
                     format!("{first} | {second}")
                 }
             }
